@@ -16,7 +16,7 @@ RULE = ("hostile inputs to every decoding entry point: raw random slices (length
         "bytes with maximal length fields for UpdateDecoder.Decode and the attribute decoders, all 256 message types. "
         "A Go panic is caught by recover and reported as outcome PANIC = violation. distinct = distinct (op, ints, bytes).")
 ASSUMPTIONS = ["decoder half of C05; the wedge half (hostile streams at every FSM state, then a fresh peer must establish and Close must return) is the system-level part"]
-COQ_FILES = ["Model/Update.v", "Model/Packet.v", "Proofs/TotalProofs.v", "Props/C05.v"]
+COQ_FILES = ["Model/Update.v", "Model/Packet.v", "Model/Server.v", "Proofs/TotalProofs.v", "Proofs/ServerProofs.v", "Props/C05.v"]
 
 
 def hostile(rng, maxlen=4096):
